@@ -69,7 +69,7 @@ func (a1 jsonMultiset) diff(n JsonNode, path path, metadata []Metadata, strategy
 		default:
 			e = DiffElement{
 				Path:      path.clone(),
-				OldValues: nodeList(a1),
+				OldValues: nodeList(jsonArray(a1)),
 				NewValues: nodeList(n),
 			}
 		}
